@@ -12,6 +12,13 @@ from . import molfile as MF
 from .molfile import Atom, Mol
 
 
+_RETAINED = {}
+
+
+def reset_retained():
+    _RETAINED.clear()
+
+
 def graph_repr(g):
     return repr(([(k, list(d.items())) for k, d in g.nodes(data=True)],
                  [(a, b, list(d.items())) for a, b, d in g.edges(data=True)]))
@@ -135,6 +142,28 @@ def items():
             out.append((f"{opname}|{name}", (lambda op=op, t=t: op(t))))
     for name in ("v3:salt", "v3:ethanol-d", "v3:isolated", "v3:cube"):
         out.append((f"write-calc|{name}", (lambda t=texts[name]: op_write_calc(t))))
+    # operations on a graph object the caller keeps across calls (read once per process/history)
+    mols["isohexane"] = Mol([Atom("C") for _ in range(6)], [(0, 1, 1), (1, 2, 1), (2, 3, 1), (3, 4, 1), (1, 5, 1)])
+    for name in ("isohexane", "benzene-13C-rad"):
+        t = MF.v3000_text(mols[name])
+
+        def retained(t=t, name=name):
+            from tucan.io import graph_from_molfile_text
+            if name not in _RETAINED:
+                _RETAINED[name] = graph_from_molfile_text(t)
+            return _RETAINED[name]
+
+        def op_ser_retained(retained=retained):
+            from tucan.serialization import serialize_molecule
+            return serialize_molecule(retained())
+
+        def op_canon_retained(retained=retained):
+            from tucan.canonicalization import canonicalize_molecule
+            from tucan.serialization import serialize_molecule
+            return serialize_molecule(canonicalize_molecule(retained()))
+
+        out.append((f"serialize-retained|{name}", op_ser_retained))
+        out.append((f"canon-retained|{name}", op_canon_retained))
     for s in TUCAN_STRINGS:
         out.append((f"parse|{s}", (lambda s=s: op_parse(s))))
         out.append((f"norm|{s}", (lambda s=s: op_norm(s))))
